@@ -3,7 +3,7 @@
    over the COST table regenerated from the Rust sources (Gen/OpcodeCost.v), model C = Promise.v. *)
 From Coq Require Import List Arith Lia Bool String.
 Import ListNotations.
-From C16 Require Import Model_C16 Proofs_Jobs Proofs_Loop Proofs_Budget Proofs_C16.
+From C16 Require Import Model_C16 Proofs_Jobs Proofs_Loop Proofs_Budget Proofs_C16 DeepLoop_C16 DeepLoopProofs_C16 DeepLoopCase_C16 DeepLoopCaseProofs_C16.
 From Gen Require Import OpcodeCost.
 
 (* ================= model A: the job queue ================= *)
@@ -183,6 +183,70 @@ Check loop_counter : forall (world job err : Type) (now : world -> nat)
   | _ => forall extra, run_loop_n world job err now execk (fuel + extra) s k = run_loop_n world job err now execk fuel s k
   end.
 Print Assumptions loop_counter.
+
+(* ================= deepening: the full run_jobs_async loop ================= *)
+
+(* DeepLoop_C16.run_full transliterates the whole loop: the stop flag, native async jobs and FinalizationRegistry
+   clean-up jobs (started in queue order, their futures polled by two FutureGroups whose polling order and effects
+   are arbitrary), timeout and interval jobs with cancellation and re-arming, promise jobs, generic jobs, and
+   whatever other threads do to the world at each yield.  For EVERY behaviour of all of these: promise jobs run in
+   HostEnqueuePromiseJob order, each at most once; all of them when the loop returns Ok by running dry; a prefix (the
+   rest dropped by clear()) when a job or future fails or a stop was requested *)
+Theorem full_loop_promise_fifo : forall (world job err fut : Type) (now : world -> nat)
+    (execk : job -> world -> world * list (fkind * job) * option err)
+    (astart : job -> world -> world * list (fkind * job) * fut)
+    (gpoll : list (nat * fut) -> world -> list (nat * fut) * world * list (fkind * job) * option err)
+    (stop_requested : world -> bool) (clear_stop : world -> world) (cancelled : world -> nat -> bool)
+    (between : world -> world) (fuel : nat) (s : fstate world job fut),
+  fplog s = fpdone s ++ fp s ->
+  match run_full world job err fut now execk astart gpoll stop_requested clear_stop cancelled between fuel s with
+  | FFinished s' => fpdone s' = fplog s' /\ fp s' = []
+  | FFailed s' _ => exists dropped, fplog s' = fpdone s' ++ dropped
+  | FStopped s' => exists dropped, fplog s' = fpdone s' ++ dropped
+  | FOutOfFuel s' => fplog s' = fpdone s' ++ fp s'
+  end.
+Proof.
+  intros world job err fut now execk astart gpoll stop_requested clear_stop cancelled between fuel s H.
+  pose proof (full_loop_promise_fifo_lemma world job err fut now execk astart gpoll stop_requested clear_stop cancelled
+                between fuel s) as P.
+  unfold finv in P. specialize (P H).
+  destruct (run_full world job err fut now execk astart gpoll stop_requested clear_stop cancelled between fuel s); exact P.
+Qed.
+Check full_loop_promise_fifo : forall (world job err fut : Type) (now : world -> nat)
+    (execk : job -> world -> world * list (fkind * job) * option err)
+    (astart : job -> world -> world * list (fkind * job) * fut)
+    (gpoll : list (nat * fut) -> world -> list (nat * fut) * world * list (fkind * job) * option err)
+    (stop_requested : world -> bool) (clear_stop : world -> world) (cancelled : world -> nat -> bool)
+    (between : world -> world) (fuel : nat) (s : fstate world job fut),
+  fplog s = fpdone s ++ fp s ->
+  match run_full world job err fut now execk astart gpoll stop_requested clear_stop cancelled between fuel s with
+  | FFinished s' => fpdone s' = fplog s' /\ fp s' = []
+  | FFailed s' _ => exists dropped, fplog s' = fpdone s' ++ dropped
+  | FStopped s' => exists dropped, fplog s' = fpdone s' ++ dropped
+  | FOutOfFuel s' => fplog s' = fpdone s' ++ fp s'
+  end.
+Print Assumptions full_loop_promise_fifo.
+
+(* the poll-counting variant that the `jloop` correspondence executes against SimpleJobExecutor::run_jobs_async
+   (DeepLoopCase_C16.full_case: promise / generic / timeout / interval jobs, cancellation, stop) is run_full *)
+Theorem full_loop_counted : forall (world job err fut : Type) (now : world -> nat)
+    (execk : job -> world -> world * list (fkind * job) * option err)
+    (astart : job -> world -> world * list (fkind * job) * fut)
+    (gpoll : list (nat * fut) -> world -> list (nat * fut) * world * list (fkind * job) * option err)
+    (stop_requested : world -> bool) (clear_stop : world -> world) (cancelled : world -> nat -> bool)
+    (between : world -> world) (fuel : nat) (s : fstate world job fut) (k : nat),
+  fst (run_full_n world job err fut now execk astart gpoll stop_requested clear_stop cancelled between fuel s k) =
+  run_full world job err fut now execk astart gpoll stop_requested clear_stop cancelled between fuel s.
+Proof. exact run_full_n_fst. Qed.
+Check full_loop_counted : forall (world job err fut : Type) (now : world -> nat)
+    (execk : job -> world -> world * list (fkind * job) * option err)
+    (astart : job -> world -> world * list (fkind * job) * fut)
+    (gpoll : list (nat * fut) -> world -> list (nat * fut) * world * list (fkind * job) * option err)
+    (stop_requested : world -> bool) (clear_stop : world -> world) (cancelled : world -> nat -> bool)
+    (between : world -> world) (fuel : nat) (s : fstate world job fut) (k : nat),
+  fst (run_full_n world job err fut now execk astart gpoll stop_requested clear_stop cancelled between fuel s k) =
+  run_full world job err fut now execk astart gpoll stop_requested clear_stop cancelled between fuel s.
+Print Assumptions full_loop_counted.
 
 (* ================= model B: the instruction budget ================= *)
 
